@@ -32,7 +32,6 @@ def wrapper_text(p, with_evidence):
 
 def run(ctx):
     base = semcheck.gen_programs(ctx.seed * 7919 + 261, ctx.pick(120, 1500), "strat", p_edge=True)
-    base = [p for p in base if not semcheck.triggers(p).get("repeated_var_query")]
     P = []          # programs as judged by TLC
     texts = []
     kinds = []
